@@ -163,5 +163,51 @@ def pipeline_instance():
     return Instance('C17', 'pb_bss:documented-pipeline', 'bounded-synthetic-scenes', make, call, ensures, mode='bounded', bounded_n=16, frame=False)
 
 
+def alignment_stage_instance():
+    """The alignment stage of the chain on its own: posteriors of the quality the mixture stage delivers on such scenes (true partition,
+    blurred and jittered), permuted per frequency within the aligner's domain, through DHTV and the global oracle alignment --
+    at least 99 % of the points keep their true class.  Cheap (no EM), so many scenes with K >= 3, where the order in which
+    repeated per-bin permutations are composed matters."""
+    from pb_bss import permutation_alignment as pa
+
+    def make(B):
+        return {'K': B.choose('K', [3, 3, 4, 5]), 'F': B.choose('F', [65, 129, 257]), 'jitter': B.choose('jitter', [0.05, 0.15, 0.3]),
+                'seed': B.choose('seed', list(range(5000))), 'd': B.given('d', np.zeros(1))}
+
+    def call(inp):
+        rng = np.random.RandomState(inp['seed'])
+        K, F = inp['K'], inp['F']
+        T = int(rng.randint(60, 160))
+        while True:
+            owner = rng.randint(0, K, size=T)
+            if all((owner == k).mean() >= 0.1 for k in range(K)):
+                break
+        truth = np.broadcast_to((owner[None, None, :] == np.arange(K)[:, None, None]), (K, F, T)).astype(float)
+        soft = 0.8 * truth + 0.2 / K + inp['jitter'] * rng.uniform(size=(K, F, T))
+        soft /= soft.sum(0, keepdims=True)
+        if F == 257:
+            dhtv = pa.DHTVPermutationAlignment.from_stft_size(512)
+        else:
+            width = F // 3
+            dhtv = pa.DHTVPermutationAlignment(stft_size=2 * (F - 1), segment_start=(F - width) // 2, segment_width=width, segment_shift=max(1, width // 4),
+                                               main_iterations=20, sub_iterations=2)
+        _, a, b = dhtv.alignment_plan[0]
+        field = np.stack([rng.permutation(K) for _ in range(F)], axis=1)
+        maj = np.roll(np.arange(K), 1) if inp['seed'] % 2 else rng.permutation(K)
+        idx = np.arange(a, b)
+        rng.shuffle(idx)
+        field[:, idx[:int(np.ceil(0.75 * len(idx)))]] = maj[:, None]
+        masks = soft[field, np.arange(F)]
+        aligned = dhtv(masks)
+        g = pa.OraclePermutationAlignment('euclidean').calculate_mapping(aligned.reshape(K, F * T), truth.reshape(K, F * T))
+        aligned = aligned[g]
+        return {'acc': float(np.mean(np.argmax(aligned, axis=0) == np.argmax(truth, axis=0))), 'K': K}
+
+    def ensures(sp, inp, out):
+        yield 'alignment-stage-keeps-the-true-class-in-99-percent[K=%d]' % out['K'], out['acc'] >= 0.99
+
+    return Instance('C17', 'pb_bss:documented-pipeline', 'bounded-alignment-stage', make, call, ensures, mode='bounded', bounded_n=60, frame=False)
+
+
 def instances(tier):
-    return [pipeline_instance()]
+    return [pipeline_instance(), alignment_stage_instance()]
